@@ -882,9 +882,9 @@ def _restore_compjac(model, saved):
 
 
 MECHS = [('leftover-linear-vectors', ('lin',)),
+         ('leftover-residual-vector', ('lin', 'resid')),
          ('leftover-relevance-state', ('lin', 'relev')),
          ('approximations-pruned-by-relevance', ('lin', 'resid', 'compjac')),
-         ('leftover-residual-vector', ('lin', 'resid')),
          ('broyden-jacobian-carried-over', ('lin', 'broyden')),
          ('approx-options-overwritten', ('lin', 'approx'))]
 
